@@ -14,7 +14,15 @@
    Update (the U operation persists and releases the messages atomically): a RESTART
    discards what happened after the last Update in L1, and those steps never happened in
    L2 either (RaftNet.v, D8).  Steps of different replicas commute in L2 unless one reads a
-   message the other one sent, and messages leave a replica only through an Update.
+   message the other one sent (all guards are monotone in the soup, except the restart guard,
+   which reads the replica's own acknowledgements), and messages leave a replica only
+   through an Update.  At the end of a case the steps still waiting are explained as well.
+
+   Failure policy.  [Differs]/[Stuck] on a step = incl=FAIL.  [Unmodelled] = the schedule is
+   outside the fault model of L2 (a message nobody sent, a replica re-created under its id,
+   an apply event for an uncommitted entry): the L2 node is overwritten with the
+   abstraction (resync, counted).  A replica whose membership events do not follow its log
+   is tainted: a step of it that cannot be explained is resynchronised instead of failing.
 
    One line per case is added to the projection lines:
        <case> incl=ok steps=<ops> labels=<L2 steps> resync=<k> [kinds...]
@@ -183,6 +191,7 @@ type bufop = {
   b_k : int; b_name : string; b_f : string array;
   b_pre : node option; b_post : node;
   b_mapp : int;                                   (* L1 index up to which membership effects were delivered *)
+  b_memb : bool;                                  (* the replica's membership reflects at least the bootstrap entries *)
 }
 
 type rep = {
@@ -199,6 +208,8 @@ type rep = {
 let stat_expl : (string, int) Hashtbl.t = Hashtbl.create 32
 let stat_resync : (string, int) Hashtbl.t = Hashtbl.create 32
 let stat_labels : (string, int) Hashtbl.t = Hashtbl.create 32
+let stat_taint : (string, int) Hashtbl.t = Hashtbl.create 32
+let stat_nonempty : (string, int) Hashtbl.t = Hashtbl.create 32   (* explained by at least one label *)
 let bump h k n = Hashtbl.replace h k (n + (try Hashtbl.find h k with Not_found -> 0))
 
 let label_name = function
@@ -541,6 +552,17 @@ let explain cs (i : int) (rp : rep) (b : bufop) : unit =
       | WHB (_, _, j, c) -> must (base (LSendHB (ii, nat j, nat c)))
       | WIS (_, _, k, _) -> must (L4SendIS (ii, nat k))
       | _ -> ()) wants;
+    (* an acknowledgement of the replica's commit index that nothing above produced: the
+       answer to an InstallSnapshot that lies inside the bootstrap prefix (no L2 message).
+       It is the answer to any stale Replicate of the same leader, which stays deliverable *)
+    List.iter (fun (_, w) ->
+      match w with
+      | WAck (t, _, l, k) when find_in_soup !s w = None && k = inat (cur ()).o_commit ->
+        (match List.find_opt (fun sm -> match sm with
+             | AE (t', l', p', _, _, _) -> inat t' = t && inat l' = l && inat p' < k | _ -> false) (l2_msgs !s) with
+         | Some (AE (t', l', p', pt', es', lc')) -> ignore (try_label (base (LHandleAE (ii, t', l', p', pt', es', lc'))))
+         | _ -> ())
+      | _ -> ()) wants;
     (* compaction *)
     let x = cur () in
     if y.a_first > inat x.o_first then must (L4Compact (ii, nat y.a_first));
@@ -556,6 +578,7 @@ let explain cs (i : int) (rp : rep) (b : bufop) : unit =
     cs.labels <- cs.labels + List.length ls;
     List.iter (fun l -> bump stat_labels (label_name l) 1) ls;
     bump stat_expl b.b_name 1;
+    if ls <> [] then bump stat_nonempty b.b_name 1;
     if debug then Printf.eprintf "  op %d %s node %d: %s\n" b.b_k b.b_name i (join " ; " (List.map label_text ls)) in
   let why = ref "" in
   let ok =
@@ -571,11 +594,16 @@ let explain cs (i : int) (rp : rep) (b : bufop) : unit =
   end
 
 (* membership of the L1 replica against the configuration of the L2 node *)
-let check_membership cs (i : int) (rp : rep) =
-  if rp.taint = None && rp.live && (rp.initial || rp.acur >= cs.nboot) then begin
-    let l1 = voting_set rp.nd in
+let check_membership cs (i : int) (rp : rep) (b : bufop) =
+  if rp.taint = None && rp.live && b.b_memb then begin
+    let l1 = voting_set b.b_post in
     let l2 = List.sort compare (List.map inat (l2_cfg cs.c0 cs.l2 (nat i))) in
-    if l1 <> l2 then rp.taint <- Some "membership-not-the-function-of-the-applied-log"
+    if l1 <> l2 then begin
+      rp.taint <- Some "membership-not-the-function-of-the-applied-log";
+      bump stat_taint "membership-not-the-function-of-the-applied-log" 1;
+      if debug then Printf.eprintf "  op %d %s node %d: membership L1=%s L2=%s\n" b.b_k b.b_name i
+          (join "+" (List.map string_of_int l1)) (join "+" (List.map string_of_int l2))
+    end
   end
 
 let run_case (cid : string) (hdr : string) (body : string) =
@@ -603,7 +631,7 @@ let run_case (cid : string) (hdr : string) (body : string) =
          cs.fail <- Some (Printf.sprintf "op=%d %s replica=%d %s" b.b_k b.b_name i d));
       if cs.fail = None then begin
         match b.b_name with
-        | "ACC" | "RCC" | "NLA" | "RR" | "RESTART" | "START" -> check_membership cs i rp
+        | "ACC" | "RCC" | "NLA" | "RR" | "RESTART" | "START" -> check_membership cs i rp b
         | _ -> ()
       end
     end in
@@ -686,6 +714,8 @@ let run_case (cid : string) (hdr : string) (body : string) =
                     let init = split_ids f.(3) in
                     if init <> [] then begin
                       let c0 = List.map (fun x -> nat (ni x)) init in
+                      if List.length (List.sort_uniq compare (List.map ni init)) <> List.length init then
+                        giveup := Some "bootstrap-members-not-distinct";
                       if cs.c0_set && c0 <> cs.c0 then giveup := Some "two-bootstrap-memberships"
                       else if not cs.c0_set then begin
                         if Hashtbl.length cs.reps > 1 then giveup := Some "replica-started-before-bootstrap"
@@ -709,13 +739,15 @@ let run_case (cid : string) (hdr : string) (body : string) =
                      | Some e when ni e.e_index <= ni l.l_committed ->
                        (match name, decode_cc e.e_cmd with
                         | "ACC", Some (ty, rid) when ty <> ni (nv 2) || rid <> ni (nv 3) ->
-                          rp.taint <- Some "config-change-event-without-its-entry"
+                          rp.taint <- Some "config-change-event-without-its-entry";
+                          bump stat_taint "config-change-event-without-its-entry" 1
                         | _ -> ());
                        rp.acur <- ni e.e_index; rp.mapp <- max rp.mapp rp.acur
-                     | _ -> rp.taint <- Some "config-change-event-without-its-entry")
+                     | _ -> rp.taint <- Some "config-change-event-without-its-entry";
+                       bump stat_taint "config-change-event-without-its-entry" 1)
                   | _ -> ());
                  let b = { b_k = k; b_name = name; b_f = f; b_pre = (if name = "START" then None else pre);
-                           b_post = nd; b_mapp = rp.mapp } in
+                           b_post = nd; b_mapp = rp.mapp; b_memb = rp.initial || rp.acur >= cs.nboot } in
                  (match name with
                   | "U" -> flush i rp; explain_op i rp b
                   | "RESTART" ->
@@ -757,4 +789,5 @@ let () =
   let dump name h =
     let l = List.sort compare (Hashtbl.fold (fun k v acc -> (k, v) :: acc) h []) in
     Printf.eprintf "R02 %s: %s\n" name (join " " (List.map (fun (k, v) -> Printf.sprintf "%s=%d" k v) l)) in
-  dump "explained" stat_expl; dump "resync" stat_resync; dump "labels" stat_labels
+  dump "explained" stat_expl; dump "resync" stat_resync; dump "labels" stat_labels; dump "tainted" stat_taint;
+  dump "nonempty" stat_nonempty
